@@ -323,6 +323,7 @@ func c06R3(p *core.Program, r *core.Report) {
 		r.Anchor(rule, "pkg/gengo.(*gengoCtx).Doc / merge")
 		return
 	}
+	m = flatten(p, m) // loops in range form
 	info := d.Info()
 	ok := false
 	why := "Doc does not return merge(globals, package tags, declaration tags)"
@@ -494,6 +495,7 @@ func c06R4(p *core.Program, r *core.Report) {
 		r.Anchor(rule, "pkg/gengo.IsGeneratorEnabled")
 		return
 	}
+	f = flatten(p, f) // helpers in place, a single-exit result variable shown as the returns it stands for
 	info := f.Info()
 	g := graph(f)
 	// concatenation leaves of an expression (through single-definition locals)
@@ -776,7 +778,8 @@ func c06R5(p *core.Program, r *core.Report) {
 	var loop *ast.RangeStmt
 	ast.Inspect(f.Body, func(n ast.Node) bool {
 		if rs, ok := n.(*ast.RangeStmt); ok {
-			if fld := core.FieldOf(info, rs.X); isRole(p, fld, "ctx.callbacks") {
+			seq, _ := core.Resolve(info, f.Body, rs.X) // the list, possibly read into a local first
+			if fld := core.FieldOf(info, seq); isRole(p, fld, "ctx.callbacks") {
 				loop = rs
 			}
 		}
@@ -808,7 +811,13 @@ func c06R5(p *core.Program, r *core.Report) {
 		return
 	}
 	// receiver of defers and argument are the same per-generator context
-	okCtx := len(call.Args) == 1 && core.SameRef(info, call.Args[0], loop.X.(*ast.SelectorExpr).X)
+	seqX, _ := core.Resolve(info, f.Body, loop.X)
+	seqSel, isSeqSel := ast.Unparen(seqX).(*ast.SelectorExpr)
+	if !isSeqSel {
+		r.Unknown(rule, f, "callbacks get the context they were registered on", call.Pos(), "the list that is ranged over is not a field selection")
+		return
+	}
+	okCtx := len(call.Args) == 1 && core.SameRef(info, call.Args[0], seqSel.X)
 	r.Check(okCtx, rule, f, "callbacks get the context they were registered on", call.Pos(), "fn(ctx) with ctx.defers being ranged", "a callback is invoked with another context than the one it was registered on")
 	cp := g.PointOf(call)
 	// after doGenerate succeeded
@@ -819,7 +828,7 @@ func c06R5(p *core.Program, r *core.Report) {
 		}
 	}
 	after := false
-	if dgCall != nil && core.SameRef(info, recvOf(dgCall), loop.X.(*ast.SelectorExpr).X) {
+	if dgCall != nil && core.SameRef(info, recvOf(dgCall), seqSel.X) {
 		dp := g.PointOf(dgCall)
 		// every path to the callbacks passes the generation pass - or the edge on which the context has no package
 		// (nothing to generate: the pass would return at once) ...
